@@ -11,6 +11,7 @@
 Crash findings are keyed (isa, stage, exception type, innermost amoco/arch frame file:function).
 """
 import multiprocessing as mp
+import os
 import sys
 
 from harness import framework, tlc, c17
@@ -120,6 +121,9 @@ def run(ctx):
     ctx.assume("decode-mode globals (env.internals) and sf flags of architectural registers are restored after "
                "every apply, and the pending-prefix variable is cleared after a decode that raised, so that cases "
                "are independent (the leak itself is C11's finding)")
+    ctx.assume("co-import pickle round trips: x86+x64, dwarf+wasm, rv32i+rv64i, z80+gb are loaded in one process, "
+               "instructions of both are pickled and loaded back in interleaved order; the copy must have the same "
+               "fingerprint (incl. the module of its spec's hook) and the same rendering as the original")
     ctx.assume("the list of importable ISA modules is vendored in harness/dec_common.py (22 modules, 24 modes; "
                "avr.cpu, ppc32.cpu_e200, superh.cpu_sh4 do not import on the pinned tree)")
     # --- M: the trace spec rejects seeded faults --------------------------------------------------------
@@ -143,7 +147,13 @@ def run(ctx):
                 jobs.append((isa, mode, lo, min(n, lo + step), fillings, nrandom if first else 0, ctx.seed, True))
                 first = False
                 lo += step
+        # co-import pickle round trips: pairs of ISA modules whose tables share format strings, in one process
+        pairs = [p for p in c17.COPICKLE_PAIRS if not os.environ.get("VERIF_DEC_ISAS")
+                 or all(x[0] in os.environ["VERIF_DEC_ISAS"].split(",") for x in p)]
+        co = pool.map_async(c17.copickle_task, [(a, b, ["zeros", "random"] if quick else ["zeros", "ones", "random", "random", "boundary"], ctx.seed)
+                                                 for a, b in pairs], chunksize=1)
         outs = pool.map(c17.run_chunk, jobs, chunksize=1)
+        co = co.get()
     traces = []
     per_isa = {}
     syn = {}
@@ -157,6 +167,14 @@ def run(ctx):
             tr["t"] = len(traces) + 1
             tr["maxlen"] = 0
             traces.append(tr)
+    ncop = 0
+    for o in co:
+        for tr in o["traces"]:
+            tr["t"] = len(traces) + 1
+            tr["maxlen"] = 0
+            traces.append(tr)
+            ncop += 1
+    ctx.note("copickle_round_trips", ncop)
     ctx.note("wall_drive_s", round(time.time() - t_gen, 1))
     t_val = time.time()
     verdicts = D.validate(ctx, traces, "c17")
